@@ -513,21 +513,36 @@ func ruleLockedWrapper(c *Ctx, a *cacheAnchors) {
 		var last *Event
 		lastIdx := -1
 		locked := false
+		released, reacquired := false, false // since the last lookup
 		for i, e := range pr.Events {
 			switch {
 			case e.calleeIs("(*sync.RWMutex).Lock"):
 				locked = true
+				if released {
+					reacquired = true
+				}
 			case e.calleeIs("(*sync.RWMutex).RLock"):
 				// a read lock is not enough for the lookup (it mutates the entry)
+				if released {
+					reacquired = true
+				}
 			case e.calleeIs("(*sync.RWMutex).Unlock", "(*sync.RWMutex).RUnlock"):
 				locked = false
+				if last != nil {
+					released = true
+				}
 			case e.Kind == "call" && e.Callee == a.get:
 				if !locked {
 					add("the lookup is called without the entry's write lock")
 				}
 				last, lastIdx = e, i
+				released, reacquired = false, false
 			case e.Kind == "recv":
 				waits++
+				if reacquired {
+					add("takes the entry lock again between registering as a waiter and waiting: the completion holds the write lock while it hands the result over to the registered waiters, so the two block each other forever")
+				}
+				released, reacquired = false, false
 				if locked {
 					add("waits on the channel while holding the entry lock")
 				}
